@@ -122,7 +122,9 @@ unsafe fn any_local_state(l: &Local, c: &Collector) {
     kani::assume(gc < usize::MAX - 4);
     l.guard_count.set(gc);
     let hc: usize = kani::any();
-    kani::assume(hc >= 1 && hc < usize::MAX - 4);
+    // a live participant is kept by a handle or - after the thread's handle is gone (cs() in a
+    // thread-local destructor registers a temporary participant and drops its handle at once) - by a guard alone
+    kani::assume(hc < usize::MAX - 4 && (hc >= 1 || gc >= 1));
     l.handle_count.set(hc);
     let g: usize = kani::any();
     kani::assume(g & 1 == 0 && g >= 2);
@@ -250,6 +252,8 @@ fn c16_unpin() {
     assert!(inv_l(l), "C16.unpin.invariant");
     assert!((raw_epoch(&l.epoch) & 1 == 0) == (gc == 1 && kept == 0), "C13.unpin.clears_pinned_bit_only_for_outermost_guard");
     if gc > 1 { assert!(L_UNPIN_WRITES == 0 && COLLECTS == 0 && (raw_epoch(&l.epoch) >> 1) == (ep >> 1), "C16.unpin.inner_guard_changes_nothing_else"); }
+    // a guard created by a destructor during the collection and kept alive keeps its announcement
+    if kept > 0 { assert!(raw_epoch(&l.epoch) == ep, "C16.unpin.collection_keeps_the_epoch_of_a_guard_kept_by_a_destructor"); }
     let rescheduled = 1 - COLLECT_RESCHEDULES;
     assert!(COLLECTS == if gc == 1 && !collecting && must { 1 + rescheduled } else { 0 }, "C15.unpin.runs_scheduled_collection_from_outermost_unpin");
     if COLLECTS > 0 { assert!(COLLECT_PINNED && COLLECT_GUARD_LOCAL == l as *const Local as usize && !l.must_collect.get(), "C13.unpin.collects_while_still_pinned"); }
@@ -294,7 +298,9 @@ fn c16_repin() {
         assert!(raw_epoch(&l.epoch) == ep, "C16.reactivate.nested_keeps_announced_epoch");
     }
     assert!(FINALIZES == 0, "C16.reactivate.participant_survives");
+    if hc == 0 { assert!(l.handle_count.get() == 0 && raw_epoch(&l.epoch) & 1 == 1, "C20.reactivate.works_on_a_participant_kept_by_its_guard_alone"); }
     assert!(other.guard_count.get() == o_gc && raw_epoch(&other.epoch) == o_ep, "C16.reactivate.other_participant_untouched");
+    kani::cover!(hc == 0 && gc == 1, "cover.reactivate.guard_only_participant");
     kani::cover!(gc == 1 && via_guard, "cover.reactivate.sole_guard");
     kani::cover!(gc == 2 && !via_guard, "cover.reactivate.nested");
 }}
@@ -328,6 +334,8 @@ fn c16_reactivate_after() {
     if gc == 1 { assert!(G_LAST_LOAD_SEQ > L_LAST_WRITE_SEQ && (G_LAST_LOAD_VAL >> 1) == (raw_epoch(&l.epoch) >> 1), "C14.reactivate_after.repinned_at_validated_current_epoch"); }
     else { assert!(raw_epoch(&l.epoch) == ep, "C16.reactivate_after.nested_keeps_announced_epoch"); }
     assert!(FINALIZES == 0, "C16.reactivate_after.participant_survives");
+    if hc == 0 { assert!(l.handle_count.get() == 0 && raw_epoch(&l.epoch) & 1 == 1, "C20.reactivate_after.works_on_a_participant_kept_by_its_guard_alone"); }
+    kani::cover!(hc == 0 && gc == 1, "cover.reactivate_after.guard_only_participant");
     kani::cover!(gc == 1, "cover.reactivate_after.sole_guard");
     kani::cover!(gc == 3, "cover.reactivate_after.nested");
     core::mem::forget(g);
@@ -555,7 +563,11 @@ fn c13_collect() {
     let l: &Local = &l_store;
     let g: usize = kani::any(); kani::assume(g & 1 == 0);
     set_raw_epoch(&c.global.epoch, g);
-    l.guard_count.set(1); set_raw_epoch(&l.epoch, g | 1);
+    // the guard whose drop runs this collection, plus possibly one that a destructor created and kept
+    let gc: usize = kani::any(); kani::assume(gc == 1 || gc == 2);
+    let collecting: bool = kani::any(); l.collecting.set(collecting);
+    let ep0 = (if kani::any() { g } else { g.wrapping_sub(2) }) | 1;
+    l.guard_count.set(gc); set_raw_epoch(&l.epoch, ep0);
     l.manual_count.set(kani::any()); l.pin_count.set(kani::any());
     let nb: usize = kani::any(); kani::assume(nb <= 2);
     let (s0, s1): (usize, usize) = (kani::any(), kani::any());
@@ -571,6 +583,10 @@ fn c13_collect() {
     let dist = |s: usize| { let d = ((g >> 1).wrapping_sub(s >> 1)) & (usize::MAX >> 1); if d >= (1usize << 62) { d as i64 - (1i64 << 62) - (1i64 << 62) } else { d as i64 } };
     let (x0, x1) = (nb >= 1 && dist(s0) >= 3, nb >= 2 && dist(s1) >= 3);
     assert!(ADVANCES == 1, "C13.collect.one_advance_attempt");
+    // between two bags the collector may re-announce (long collections, C14) - never under a foreign guard (C16)
+    if gc > 1 { assert!(raw_epoch(&l.epoch) == ep0, "C16.collect.keeps_the_announced_epoch_while_another_guard_is_alive"); }
+    assert!(raw_epoch(&l.epoch) == ep0 || raw_epoch(&l.epoch) == (g | 1), "C14.collect.re_announces_the_current_epoch_only");
+    assert!(l.guard_count.get() == gc, "C16.collect.guard_count_unchanged");
     assert!(l.manual_count.get() == 0 && l.pin_count.get() == 0, "C15.collect.resets_collection_counters");
     assert!(EXEC[0] <= 1 && EXEC[1] <= 1, "C15.collect.each_function_at_most_once");
     assert!(EXEC[0] == x0 as u32, "C13.collect.first_bag_runs_iff_expired");
@@ -600,6 +616,9 @@ fn c15_defer() {
     let n: usize = kani::any(); kani::assume(n <= 2);
     *l.bag.get() = bag_with(2, n, 0);
     let ac: usize = kani::any(); l.advance_count.set(ac);
+    // also from inside a collection (the engine's own queue pop and registry scan defer from there,
+    // holding epoch-protected references across the call; so do destructors that opened a guard)
+    let collecting: bool = kani::any(); l.collecting.set(collecting);
     let guard = ManuallyDrop::new(Guard { local: l });
     l.defer(tagged_deferred(4), &guard);
     let bag = &*l.bag.get();
@@ -617,6 +636,7 @@ fn c15_defer() {
     let k = bag.0.len();
     core::ptr::drop_in_place(l.bag.get());
     assert!(EXEC[4] == 1 && EXEC_ORDER[k - 1] == 4 && EXEC_N == k, "C15.defer.function_is_last_in_bag_exactly_once");
+    kani::cover!(n == 2 && collecting, "cover.defer.full_bag_during_collection");
     kani::cover!(n == 2, "cover.defer.full_bag");
     kani::cover!(ADVANCES == 1, "cover.defer.advance");
 }}
@@ -645,8 +665,8 @@ fn c15_flush() {
     if flushed {
         assert!(PUSH_BAGS == (n > 0) as u32 && (n == 0 || PUSHED_LEN[0] == n) && (*l.bag.get()).is_empty(), "C15.flush.moves_local_bag_to_global_queue_iff_nonempty");
         assert!(l.must_collect.get(), "C15.flush.schedules_collection");
-        assert!((raw_epoch(&l.epoch) == (g | 1)) == collecting || raw_epoch(&l.epoch) == (g.wrapping_sub(2) | 1), "C14.schedule_collection.repins_only_during_collection");
-        if !collecting { assert!(raw_epoch(&l.epoch) == (g.wrapping_sub(2) | 1), "C13.schedule_collection.keeps_announced_epoch_outside_collection"); }
+        // C16: the caller holds a live guard (it passes one), so its announcement stays - in a collection too
+        assert!(raw_epoch(&l.epoch) == (g.wrapping_sub(2) | 1), "C16.flush.keeps_the_announced_epoch_under_a_live_guard");
     } else {
         assert!(PUSH_BAGS == 0 && !l.must_collect.get() && (*l.bag.get()).0.len() == n, "C15.manual_collection.counts_only");
     }
@@ -825,6 +845,42 @@ fn c18_register() {
     assert!(crate::ebr_impl::sync::list::verif_list::head_word(&c.global.locals) == &l.entry as *const Entry as usize, "C18.register.participant_is_reachable_from_registry_head");
     assert!(crate::ebr_impl::sync::list::verif_list::next_word(&l.entry) == old_head, "C18.register.keeps_earlier_participants_reachable");
     core::mem::forget(h);
+}}
+
+l3_harness! {
+/// C20: what `cs()` does once the thread's participant handle has been destroyed (default.rs
+/// `with_handle`: `f(&collector().register())` with f = pin) - spelled out with the real callees.
+/// The temporary participant loses its only handle as soon as `cs()` returns and lives on its guard
+/// alone; every guard operation still works on it (no panic: the crate's own debug assertions are
+/// obligations here) and dropping the last guard finalizes it exactly once (its garbage is handed
+/// over by finalize, c15_finalize).
+#[kani::stub(Local::pin, k_pin)]
+#[kani::stub(Global::collect, k_collect)]
+#[kani::stub(Local::finalize, k_finalize)]
+#[kani::unwind(6)]
+fn c20_fallback_participant_lifecycle() {
+    let c: &'static Collector = leak(Collector::new());
+    let ge: usize = kani::any(); kani::assume(ge & 1 == 0 && ge >= 2);
+    set_raw_epoch(&c.global.epoch, ge);
+    // Collector::register by its contract (proved on the real function in c18_register): a fresh
+    // participant with one handle, no guard, unpinned, empty bag (kept on the stack: a heap Local costs CBMC minutes)
+    let l_store = ManuallyDrop::new(mk_local(c, 2));
+    let l: &Local = &l_store;
+    let h = LocalHandle { local: l };
+    let mut g = h.pin();
+    drop(h);                                                     // end of with_handle's fallback closure
+    assert!(l.handle_count.get() == 0 && l.guard_count.get() == 1 && FINALIZES == 0 && inv_l(l), "C20.fallback.temporary_participant_lives_on_its_guard_alone");
+    let op: u8 = kani::any();
+    let must: bool = kani::any(); l.must_collect.set(must);
+    if op == 0 { g.reactivate(); }
+    else if op == 1 { let r = g.reactivate_after(|| 7u32); assert!(r == 7, "C20.guard_only.reactivate_after_returns_result"); }
+    else if op == 2 { g.flush(); }
+    assert!(l.handle_count.get() == 0 && l.guard_count.get() == 1 && FINALIZES == 0 && inv_l(l), "C20.guard_only.every_guard_operation_keeps_the_participant_alive_and_pinned");
+    drop(g);
+    assert!(FINALIZES == 1 && l.guard_count.get() == 0 && raw_epoch(&l.epoch) == 0, "C20.fallback.last_guard_finalizes_the_temporary_participant_exactly_once");
+    kani::cover!(op == 0, "cover.c20.reactivate");
+    kani::cover!(op == 1, "cover.c20.reactivate_after");
+    kani::cover!(op == 2 && COLLECTS >= 1, "cover.c20.flush_then_collect_at_last_unpin");
 }}
 
 l3_harness! {
